@@ -1,10 +1,124 @@
 import Driver.Common
-/-! Judge for C13: not built yet (stub so that the target exists). -/
-open Lean Driver
+import EgVerif.Model.SpecGuards
+/-! Judge for C13: evaluates `pipelineValid`, `pipelineInitOK`, `pipelineHandleOK` of
+`Model/SpecGuards.lean` on the very document the harness handed to `supervisor.NewSpec`, and compares
+with what the real validation / instantiation / request handling did. -/
+open Lean EgVerif.SpecGuards
 
 namespace Driver.C13
 
-def judges : List (String × Judge) := []
+partial def normNum (m : Int) (e : Nat) : Int × Nat :=
+  if e > 0 && m % 10 == 0 then normNum (m / 10) (e - 1) else (m, e)
+
+partial def toJ : Json → J
+  | .null => .null
+  | .bool b => .bool b
+  | .num n => let (m, e) := normNum n.mantissa n.exponent; .num m e
+  | .str s => .str s
+  | .arr a => .arr (a.toList.map toJ)
+  | .obj kvs => .obj (kvs.toList.map fun (k, v) => (k, toJ v))
+
+structure StrO where
+  re : Bool := false
+  dur : Option Int := none
+  url : Bool := false
+  tmpl : Bool := false
+
+def parseOracle (obs : Json) : List (String × StrO) :=
+  match obs.getObjVal? "oracle" with
+  | .ok (.obj kvs) => kvs.toList.map fun (k, v) =>
+      (k, { re := optBool v "re", dur := if optBool v "dur" then some (optInt v "ns") else none,
+            url := optBool v "url", tmpl := optBool v "tmpl" })
+  | _ => []
+
+/-- the empty string is answered here (Go: `regexp.Compile("")` ok, `ParseDuration("")` error,
+`url.Parse("")` ok), everything else comes from the harness. -/
+def mkOracle (tbl : List (String × StrO)) : Oracle :=
+  let look (s : String) : StrO :=
+    if s == "" then { re := true, dur := none, url := true } else (tbl.lookup s).getD {}
+  { re := fun s => (look s).re, dur := fun s => (look s).dur, url := fun s => (look s).url,
+    tmpl := fun l r t => ((tbl.lookup ("tmpl|" ++ l ++ "|" ++ r ++ "|" ++ t)).getD {}).tmpl }
+
+def kindsTag (j : J) : List String :=
+  (j.aget "filters").map fun f => "kind:" ++ f.sget "kind"
+
+/-- does a site reported by the harness belong to the guard the model blames? -/
+def siteMatches (guard site : String) : Bool :=
+  let k := ((guard.splitOn ".").headD "").toLower
+  (site.toLower.splitOn k).length > 1 || (k == "pipeline") || (k == "retry" && (site.splitOn "proxy").length > 1)
+
+def judge : Judge := liftJudge fun input obs => do
+  let specJ ← input.getObjVal? "spec"
+  let j := toJ specJ
+  let o := mkOracle (parseOracle obs)
+  match obs.getObjVal? "accepted" with
+  | .error _ => pure { agree := false, spec := true, note := "harness: " ++ obs.compress, nontrivial := false }
+  | .ok _ =>
+  match obsPanic obs with
+  | some m => pure { agree := false, spec := false, sig := "panic:harness", note := m }
+  | none =>
+  let accepted := optBool obs "accepted"
+  let valid := pipelineValid o j
+  let initOK := pipelineInitOK o j
+  let handleOK := pipelineHandleOK o j
+  let crash := (obs.getObjVal? "crash").toOption.getD Json.null
+  let crashed := match crash with | .null => false | _ => true
+  let phase := optStr crash "phase"
+  let site := optStr crash "site"
+  let expected := Json.mkObj [("valid", valid), ("initOK", initOK), ("handleOK", handleOK), ("inheritOK", pipelineInheritOK j),
+    ("initGuard", match initGuard o j with | some (p, g) => Json.str (p ++ ":" ++ g) | none => Json.null),
+    ("handleGuards", Json.arr ((handleGuards o j).map Json.str).toArray)]
+  let tags := kindsTag j ++ [if accepted then "accepted" else "rejected"]
+    ++ (if (j.aget "flow").isEmpty then [] else ["flow"])
+    ++ (if (j.aget "resilience").isEmpty then [] else ["resilience"])
+    ++ (if crashed then ["crash:" ++ phase] else [])
+    ++ (if accepted && !initOK then ["hazard:init"] else [])
+    ++ (if accepted && initOK && !pipelineInheritOK j then
+          [(if phase == "Inherit" then "hazard-hit:" else "hazard-idle:") ++ "RateLimiter.duplicate-url-rule"] else [])
+    ++ (if accepted && initOK && !handleOK then
+          (handleGuards o j).map (fun g => (if crashed then "hazard-hit:" else "hazard-idle:") ++ g) else [])
+  if hasNullElem 12 j then
+    -- malformed stream: YAML null in place of an object; accept/reject is not modelled
+    pure { agree := true, spec := !(accepted && crashed), expected := expected,
+           tags := tags ++ ["null-element"], nontrivial := accepted,
+           sig := if accepted && crashed then "panic:null-element" else "",
+           note := if crashed then optStr crash "msg" ++ " @ " ++ site else "" }
+  else if accepted != valid then
+    -- accept/reject disagreement: the correspondence is broken (and a crash is still a violation)
+    pure { agree := false, spec := !(accepted && crashed), expected := expected, tags := tags ++ ["valid-mismatch"],
+           sig := if accepted && crashed then "panic:" ++ phase ++ ":" ++ site else "",
+           note := "validation " ++ (if accepted then "accepted" else "rejected: " ++ optStr obs "err")
+                   ++ " but model valid=" ++ toString valid }
+  else if !accepted then
+    pure { agree := true, spec := true, expected := expected, tags := tags, nontrivial := false }
+  else
+    let initPhase := phase == "Init" || phase == "Inject" || phase == "Inherit"
+    if crashed then
+      let (agree, sig) :=
+        if initPhase then
+          match initGuard o j with
+          | some (p, g) => (p == phase || phase == "Inherit", "panic:" ++ p ++ ":" ++ g)
+          | none =>
+            if phase == "Inherit" && !pipelineInheritOK j then (true, "panic:Inherit:RateLimiter.duplicate-url-rule")
+            else (false, "panic:" ++ phase ++ ":" ++ site)
+        else
+          let gs := (handleGuards o j).eraseDups
+          if !initOK then (false, "panic:" ++ phase ++ ":" ++ site)
+          else match gs.find? (siteMatches · site) with
+            | some g => (true, "panic:Handle:" ++ g)
+            | none =>
+              -- a panic in a deferred function can hide the site of the first one
+              match gs with
+              | [g] => (true, "panic:Handle:" ++ g)
+              | _ => (false, "panic:" ++ phase ++ ":" ++ site)
+      pure { agree := agree, spec := false, expected := expected, tags := tags, sig := sig,
+             note := optStr crash "msg" ++ " @ " ++ site }
+    else
+      -- no crash: Init/Inject guards are deterministic, so the model must not predict one
+      pure { agree := initOK, spec := true, expected := expected, tags := tags,
+             note := if initOK then "" else "model predicts an Init/Inject panic, none observed" }
+
+def judges : List (String × Judge) := [("C13", judge)]
 
 end Driver.C13
 
